@@ -96,6 +96,9 @@ type WorkerOut struct {
 	Env        string            `json:"env"`
 	Deadlocks  int               `json:"deadlocks"`
 	Decisions  int64             `json:"decisions"`
+	DroppedFound int             `json:"dropped_found"`
+	StoppedEarly bool            `json:"stopped_early"`
+	NextRun      int             `json:"next_run"`
 	LibSteps   int64             `json:"lib_steps"`
 }
 
@@ -127,7 +130,7 @@ func cmdWorker(args []string) int {
 	to := fs.Int("to", 1, "")
 	tier := fs.String("tier", "quick", "")
 	out := fs.String("out", "", "")
-	keep := fs.Int("keep", 4, "violating scripts to keep")
+	keep := fs.Int("keep", 2, "violating scripts to keep PER DISTINCT violation key (class/operation/perturbation/symptom)")
 	cold := fs.Int("cold", -1, "run index executed concurrent-phase first (default: -from)")
 	reverse := fs.Bool("reverse", false, "execute the runs in descending order (results are still indexed by run)")
 	fs.Parse(args)
@@ -137,6 +140,7 @@ func cmdWorker(args []string) int {
 	start := time.Now()
 	logPath := raceLogPath()
 	var logOff int64
+	keptPerKey := map[string]int{}
 	big := *tier == "thorough"
 	n := *to - *from
 	w.Digests = make([]uint64, n)
@@ -189,11 +193,37 @@ func cmdWorker(args []string) int {
 			w.NViolRuns++
 			var rl string
 			rl, logOff = readFrom(logPath, logOff)
-			if len(w.Found) < *keep {
+			// keep the run if it shows a violation key of which fewer than
+			// -keep runs were kept so far: a frequent (perhaps known) finding
+			// must not crowd out a rare one
+			wanted := false
+			for i := range res.Violations {
+				k := findingKey(*prop, &res.Violations[i])
+				if keptPerKey[k] < *keep {
+					keptPerKey[k]++
+					wanted = true
+				}
+			}
+			if wanted && len(w.Found) < 400 {
 				cp := s.clone()
 				cp.Decisions = res.Decisions
 				w.Found = append(w.Found, FoundViolation{Script: cp, Violations: res.Violations, RaceLog: clipStr(rl)})
+			} else if wanted {
+				w.DroppedFound++
 			}
+		}
+		if res.Killed {
+			// tasks were torn down in this run: package-level state of the
+			// code under test may be left half-way (a worker goroutine gone,
+			// a lock held). The process is not used for further runs; the
+			// coordinator starts a fresh one for the rest of the batch.
+			w.StoppedEarly = true
+			if *reverse {
+				w.NextRun = run - 1
+			} else {
+				w.NextRun = run + 1
+			}
+			break
 		}
 	}
 	w.WallS = time.Since(start).Seconds()
